@@ -158,7 +158,9 @@ class World(object):
             if style == 'explicit':
                 kw['event'] = self.real[event]
             if sf:
-                kw['sender'] = self.S[sf]
+                # the filter object is a temporary that only the registration refers to (filters match by equality)
+                self.n_conn = getattr(self, 'n_conn', 0) + 1
+                kw['sender'] = self.S[sf] if self.n_conn % 2 else Sender(sf)
             if last:
                 kw['last'] = True
             if style == 'decorator':
